@@ -13,7 +13,6 @@ NOT_APPLICABLE = {
     "C02": "acceptance is decided by pass 1/pass 2 over a Vec<Stmt> with HashMap<String,_> and BTreeMap: symbolic execution of SymbolTable::new on a 5-statement all-concrete AST (stack array, S-hash/S-upper stubs) did not finish in 600 s / 11 GB (DESIGN.md section 9); there is no public kernel below it",
     "C03": "needs the logos lexer + parser on symbolic text (3 symbolic bytes: symex out of memory, DESIGN.md section 1). A token-level variant (hook Parser::verif_from_tokens) would drive the Parse impls over a heap Vec<(Token, Span)> with String payloads - the heap-Vec limitation of section 9 - and would not carry the layout-insensitivity half of the property anyway; not built",
     "C04": "needs parse_ast / the lexer loop on arbitrary strings: symbolic execution runs out of memory for 3 symbolic bytes (DESIGN.md section 1)",
-    "C13": "run_while is a loop around step(): Kani has one unwinding bound per harness, and the harness's own bookkeeping loops need 11, so the run loop is unrolled 11 times with a full symbolic step each (2 x 20 GB, no verdict after 20 min in symex). The one-step core that run/step_over/step_out iterate is decided by C08; harness kept in kani/src/c13.rs, unregistered",
     "C17": "ObjectFile is a BTreeMap<u16, Vec<_>> + HashMap<String,_>: building a 1-block object and inserting one block (all keys concrete) did not finish symbolic execution in 300-600 s (B-tree node code, DESIGN.md section 9)",
     "C18": "text format: line splitting, str::parse, escape_default/unescaper over Strings plus the BTreeMap/HashMap containers of C17: out of reach (DESIGN.md sections 5, 9)",
     "C19": "deserializers build BTreeMap/HashMap<String,_> (see C17); 8 symbolic bytes after the magic: still in symex at 620 s / 6.5 GB (DESIGN.md section 9)",
@@ -333,4 +332,30 @@ PROPS["C12"] = dict(
     assumptions=_K_ASSUME,
     # the harness assumes the virtual step succeeds, so "[step] step reports an error" is not coverable
     harnesses=[dict(h, cover_tags=["mem", "calls", "depth", "c12"]) for h in _kfam("c12_", ["same_step"], [])],
+)
+
+
+_RUN_LOOP = [(r"run_while.*sim\.rs", 3)]
+_C13_ENC = _K_ENC + ["Simulator::run_with_limit", "Simulator::run_while", "Simulator::hit_halt", "Simulator::hit_breakpoint"]
+PROPS["C13"] = dict(
+    level="model_checking", jobs=2, heavy_jobs=1,
+    claim="QUICK tier decides only step_out at frame depth 0 (the run_with_limit harnesses need 23-37 GB and 12-20 min each and are in the thorough tier, one at a time). One-iteration core of the run-style drivers, from an ARBITRARY machine state with no interrupt pending: run_with_limit(1), run_with_limit(1) with one PC breakpoint at any address, step_over and step_out (in executions whose documented stop condition holds after the first executed instruction) execute exactly the instruction a single step would (registers, PC, PSR, saved SP, memory, device calls, frame depth, instruction count equal the ISA model of ONE step), stop there, clear the MCR, and report hit_halt / hit_breakpoint exactly when a HALT was executed / the breakpoint matched after the executed instruction; step_out at frame depth 0 executes nothing and touches no device.",
+    note="The run_while loop of the real code is bounded per loop (cbmc --unwindset, identifier read from the regenerated goto binary): 3 head visits, so an implementation that fails to stop after the first instruction executes a second one and is compared against the one-step model (or trips the unwinding assertion).",
+    design_ref="DESIGN.md section 4 (C13)",
+    bounds="one executed instruction per call (the stop condition holds after the first step: limit 1; frame depth back to / below the starting depth; HALT; error); no interrupt pending at the first boundary; instruction counter concrete (7); breakpoints: none or one PC breakpoint; strict off; run_while loop: 3 head visits, every other loop unwind 11",
+    outside="runs of two or more instructions (equality with repeated single steps is by induction over this step only for the stop conditions checked after each step), interrupts arriving during a run, Breakpoint kinds other than PC, MCR cleared by the program through the mapped register, run() without limit",
+    assumptions=_K_STUBS + ["frame depth < 2^64-5", "CBMC pointer checks off (--no-memory-safety-checks)"],
+    harnesses=[
+        H("c13_run_limit1_iregs_vt", tier="thorough", stubbing=True, kani_args=_K_ARGS, unwindset=_RUN_LOOP, heavy=True, timeout=3000, cover_tags=["step", "mem", "calls", "depth", "run", "iregs", "mcr"],
+          encodes=_C13_ENC + ["Simulator::mmap_internal", "InternalRegister::{read,write}"],
+          bound="run_with_limit(1) from any state with the default internal-register mappings (PSR xFFFC, MCR xFFFE), virtual traps, no pending interrupt: includes the executed instruction clearing the MCR at the same boundary as the step limit (stop reason = halted)"),
+        H("c13_run_limit1_vt", tier="thorough", stubbing=True, kani_args=_K_ARGS, unwindset=_RUN_LOOP, heavy=True, timeout=1800, cover_tags=["step", "mem", "calls", "depth", "run"],
+          encodes=_C13_ENC, bound="run_with_limit(1) from any state, virtual traps, no pending interrupt, no register mapping (one symbolic step: the loop condition folds to a constant after it; 11 min, 23 GB)"),
+        H("c13_run_breakpoint_vt", tier="thorough", stubbing=True, kani_args=_K_ARGS, unwindset=_RUN_LOOP, heavy=True, timeout=1800, cover_tags=["step", "mem", "calls", "depth", "run", "bp"],
+          encodes=_C13_ENC + ["Breakpoint::check", "HashSet<Breakpoint>::{insert,iter}"], bound="as c13_run_limit1_vt with one PC breakpoint at x3005 (the machine's PC is symbolic)"),
+        H("c13_step_out_top", stubbing=True, kani_args=_K_ARGS, unwindset=_RUN_LOOP, timeout=1800, cover_tags=[],
+          encodes=["Simulator::step_out"], bound="step_out at frame depth 0 from any other state"),
+        H("c13_run_limit1", tier="thorough", stubbing=True, kani_args=_K_ARGS, unwindset=_RUN_LOOP, heavy=True, timeout=3000, cover_tags=["step", "mem", "calls", "depth", "run"],
+          encodes=_C13_ENC, bound="run_with_limit(1), real/virtual traps symbolic: two symbolic steps are encoded because an OS entry for HALT / an exception does not count as an executed instruction (30 GB, 21 min)"),
+    ],
 )
